@@ -68,8 +68,13 @@ class Report:
         """This property rests on another one (e.g. "verification succeeds only if the digests match" rests on the digest
         rules): run that property's rules on the same facts and take its findings and obligations over under `rule`."""
         import importlib
+        # two properties may rest on each other's rules (C02 <-> C03): a module already on the include chain is not entered again
+        chain = getattr(self, "_chain", (self.pid,))
+        if module_name.upper() in chain:
+            return
         mod = importlib.import_module(module_name)
         sub = Report(module_name.upper(), tier)
+        sub._chain = chain + (module_name.upper(),)
         mod.run(f, fixture, sub, cfg, tier)
         n = 0
         for fd in sub.findings:
